@@ -166,5 +166,42 @@ pub fn values(args: &[String]) {
             }
         }
     }
+    // a value in which one table object occurs several times (no cycle): it is a legal value and travels like any other
+    for (i, t) in uni.as_array().unwrap().iter().enumerate() {
+        let txt = t.to_string();
+        if t["t"] != "tab" || txt.contains("\"fn\"") || txt.contains("\"nan\"") || txt.contains("inf\"") {
+            continue;
+        }
+        for fmt in ["json", "cbor", "bincode"] {
+            let idn = format!("shared/{i}/{fmt}");
+            w.begin(i, &json!({"id": idn}));
+            let r = guarded(|| {
+                let mut vm1: Vm<()> = Vm::new(()).unwrap();
+                let inner = build_term(&mut vm1, t);
+                vm1.stack_push(inner).unwrap();
+                let mut root = vm1.init_table().unwrap();
+                let mut mid = vm1.init_table().unwrap();
+                mid.as_table_mut().unwrap().insert(Value::Integer(0), inner).unwrap();
+                let midv = Value::Object(mid.into_inner());
+                vm1.stack_push(midv).unwrap();
+                for (k, v) in [(1i64, inner), (2, inner), (3, midv)] {
+                    root.as_table_mut().unwrap().insert(Value::Integer(k), v).unwrap();
+                }
+                let v = Value::Object(root.into_inner());
+                vm1.stack_push(v).unwrap();
+                let before = deep(v, 0);
+                let owned = OwnedValue::try_from(v).map_err(|_| "a table that occurs twice was not convertible to an owned value".to_string())?;
+                let owned2 = rt_owned(&owned, fmt)?;
+                let mut vm2: Vm<()> = Vm::new(()).unwrap();
+                let v2 = vm2.insert_value(&owned2).map_err(|e| format!("{e:?}"))?;
+                Ok::<(J, J), String>((before, deep(v2, 0)))
+            });
+            match r {
+                Ok(Ok((b, a))) => w.end(rec(idn, "value", fmt, b, a, json!(0), json!(0), "")),
+                Ok(Err(e)) => w.end(rec(idn, "value", fmt, json!("before"), json!({"error": true}), json!(0), json!(0), &e)),
+                Err(msg) => w.end(rec(idn, "value", fmt, json!("before"), json!({"panic": true}), json!(0), json!(0), &msg)),
+            }
+        }
+    }
     w.finish();
 }
